@@ -1288,6 +1288,20 @@ func ruleNoArithmeticOnStatementInts(c *Ctx, rule string) {
 				switch y.Op {
 				case token.ADD, token.SUB, token.MUL, token.SHL:
 					if isStmtInt(y.X) || isStmtInt(y.Y) {
+						// x - c where every path to here has established x >= c cannot wrap (a 1-based position
+						// turned into an index after its range test)
+						if y.Op == token.SUB && isStmtInt(y.X) {
+							if cv := f.constOf(y.Y); cv != nil {
+								body := f.EnclosingBody(y)
+								g := body.Graph()
+								if loc, ok := g.Locate(y); ok {
+									xs := exprKey(y.X)
+									if g.HoldsAt(loc, Rel{xs, token.GEQ, cv.String()}) || (cv.String() == "1" && g.HoldsAt(loc, Rel{xs, token.GTR, "0"})) {
+										return true
+									}
+								}
+							}
+						}
 						idx++
 						bad++
 						c.Fail(rule, f.Name+"|arithmetic#"+itoa(idx), y.Pos(), "%s computes %s from an integer written in the statement: the operation wraps around for values near the integer limits, so a bound derived from it passes its guard and the slice built from it is out of range", f.Name, f.Src(y))
